@@ -561,7 +561,11 @@ int main(int argc, char **argv) {
     } else if (!strcmp(c, "getoff")) {
       oprintf("G %d\n", asm_get_offset(x->al));
     } else if (!strcmp(c, "asm") || !strcmp(c, "cnt") || !strcmp(c, "file") ||
-               !strcmp(c, "filecnt")) {
+               !strcmp(c, "filecnt") || !strcmp(c, "asmold") || !strcmp(c, "cntold") ||
+               !strcmp(c, "fileold")) {
+      /* the "...old" commands go through the deprecated aliases of the public header (assemble_str,
+       * assemble_string_counting_chunks, assemble_file): they must behave exactly like the asm_ names */
+      int old = strlen(c) > 3 && !strcmp(c + strlen(c) - 3, "old");
       int counting = c[0] == 'c' || !strcmp(c, "filecnt");
       int isfile = c[0] == 'f';
       const char *arg = counting ? tok[3] : tok[2];
@@ -587,7 +591,12 @@ int main(int argc, char **argv) {
       }
       int dest = -777, rc;
       wrap_in_api = 1;
-      if (isfile)
+      if (old && isfile)
+        rc = assemble_file(x->al, text);
+      else if (old)
+        rc = counting ? assemble_string_counting_chunks(x->al, text, chunk, &dest)
+                      : assemble_str(x->al, text);
+      else if (isfile)
         rc = counting ? asm_assemble_file_counting_chunks(x->al, text, chunk,
                                                           &dest)
                       : asm_assemble_file(x->al, text);
@@ -595,6 +604,10 @@ int main(int argc, char **argv) {
         rc = counting ? asm_assemble_string_counting_chunks(x->al, text, chunk,
                                                             &dest)
                       : asm_assemble_str(x->al, text);
+      if (old && asm_get_buffer(x->al) != (uint8_t *)asm_get_code(x->al)) {
+        oputs("E asm_get_buffer != asm_get_code\n");
+        continue;
+      }
       wrap_in_api = 0;
       int after = asm_get_offset(x->al);
       long pfx_bad = 0;
